@@ -20,7 +20,9 @@ META = {
         "flags (delta/full responses, paging of checkpoint responses and of the invocation payload, pruned histories, "
         "timer lag), executed invocation after invocation against the stateful service model. Oracle: at every user "
         "function entry the backend record of that position is not terminal (except bodies of contexts recorded with "
-        "ReplayChildren); every value a step delivers equals the generated ground truth. Non-trivial = execution with "
+        "ReplayChildren); every value a step delivers equals the generated ground truth (snapshotted at delivery; a third of "
+        "the steps' results are edited in place by the handler afterwards). Second stage: programs whose steps/children/"
+        "conditions use a schema-checking custom serializer that rejects the recorded payloads from invocation k on. Non-trivial = execution with "
         ">=2 invocations in which >=1 completed operation is re-encountered; distinct = (program shape, interruption "
         "pattern = outcomes of the invocations + crash points)."
     ),
@@ -48,6 +50,34 @@ def cases(draw, with_crashes=True):
     }
 
 
+def _mark_fragile(stmts, draw):
+    for s in stmts:
+        if s["op"] in ("step", "wfcond", "child") and draw(st.integers(0, 2)) > 0:
+            s["serdes"] = "fragile"
+        for k in ("body", "between", "handler"):
+            if isinstance(s.get(k), list):
+                _mark_fragile(s[k], draw)
+        if isinstance(s.get("body"), dict):
+            _mark_fragile([s["body"]], draw)
+        for br in s.get("branches", ()):
+            _mark_fragile(br, draw)
+
+
+@st.composite
+def fragile_cases(draw):
+    """Programs whose operations use a custom (schema-checking) serializer that stops accepting the recorded payloads
+    from invocation k on: a completed operation whose payload cannot be read back must fail, never run again."""
+    import copy
+
+    prog = copy.deepcopy(draw(G.programs(max_stmts=5, features=("step", "wait", "child", "wfcond", "parallel", "map", "try"))))
+    _mark_fragile(prog["body"], draw)
+    if draw(st.booleans()):
+        prog["body"].append({"op": "wait", "secs": 1})
+        prog["body"].append(draw(G.steps(allow_fail=False)))
+    return {"prog": prog, "backend": draw(G.backend_cfgs()), "plan": {"crashes": draw(G.crash_plans(max_crashes=1))},
+            "sched": draw(G.schedules()), "line": [], "serdes_break": draw(st.sampled_from([None, 1, 1, 2, 3]))}
+
+
 def nontrivial(run, case):
     if len(run.invocations) < 2:
         return None
@@ -65,7 +95,19 @@ def classes(run, case):
         out.append("replayed-completed-op")
     if any(e["replay_children"] for e in run.entries):
         out.append("replay-children-retraversal")
+    if case.get("serdes_break") is not None and any(o["out"] == "exc" and "Deserialization failed" in (o.get("msg") or "") for o in run.obs):
+        out.append("recorded-payload-unreadable")
+    sv = [o for o in run.obs if o["kind"] == "step" and o["out"] == "value" and isinstance(o["value"], (list, dict))]
+    if any(case_step_mutates(case, o["path"]) for o in sv if o.get("pre") in ("SUCCEEDED",)):
+        out.append("replayed-value-was-edited-by-user-code")
     return out
+
+
+def case_step_mutates(case, path):
+    for p, s in G.program_paths(case["prog"]):
+        if p == path:
+            return bool(s.get("mutate"))
+    return False
 
 
 def enumerate_crash_points(ctx, base, props=PROPS):
@@ -87,6 +129,7 @@ def enumerate_crash_points(ctx, base, props=PROPS):
 def shard(ctx):
     b = ctx.budget
     WC.run_generated(ctx, cases(), PROPS, n_cases=b["random_cases"], nontrivial=nontrivial, classes=classes)
+    WC.run_generated(ctx, fragile_cases(), PROPS, n_cases=max(10, b["random_cases"] // 3), nontrivial=nontrivial, classes=classes, seed_offset=3)
     # exhaustive single-crash enumeration for a number of generated programs
     from hypothesis import HealthCheck, Phase, given, seed, settings
 
